@@ -150,8 +150,9 @@ class URLInfo(object):
             remaining = '{}:{}'.format(scheme, remaining)
             scheme = default_scheme
 
-        if 'a'.encode(encoding) != b'a':
-            # UTF-16/UTF-32 documents: percent-encode as UTF-8 (WHATWG URL)
+        if not is_ascii_compatible_encoding(encoding):
+            # UTF-16/UTF-32, EBCDIC or 7-bit stateful documents (UTF-7, HZ):
+            # percent-encode as UTF-8 (WHATWG URL)
             encoding = 'utf-8'
 
         info = URLInfo()
@@ -637,6 +638,18 @@ def is_subdir(base_path, test_path, trailing_slash=False, wildcards=False):
         return fnmatch.fnmatchcase(test_path, base_path + '*')
     else:
         return test_path.startswith(base_path)
+
+
+_ASCII_TEXT = ''.join(chr(code) for code in range(128))
+
+
+@functools.lru_cache()
+def is_ascii_compatible_encoding(encoding):
+    '''Return whether the codec encodes every ASCII character as itself.'''
+    try:
+        return _ASCII_TEXT.encode(encoding) == _ASCII_TEXT.encode('ascii')
+    except (LookupError, UnicodeError):
+        return False
 
 
 def uppercase_percent_encoding(text):
